@@ -100,7 +100,8 @@ def make_judge(pid):
         if ex.raise_at and ex.raise_at[0] == "reenter":
             ex2 = forest.execute(kind2, ex.n, witness, ex.op, ex.pre, reenter={ex.raise_at[1]: tuple(ex.raise_at[2:])})
         else:
-            ex2 = forest.execute(kind2, ex.n, witness, ex.op, ex.pre, raise_at=ex.raise_at, persist=ex.persist)
+            ex2 = forest.execute(kind2, ex.n, witness, ex.op, ex.pre, raise_at=ex.raise_at, persist=ex.persist,
+                                 snap=bool(extra.get("snap")))
         forest.CUR[0] = ex.u
         t.c["lockstep_pairs"] += 1
         if why is None:
